@@ -89,10 +89,24 @@ theorem lowX_map_smul (c : ℝ) (I : Interval Rex) :
   show (0 : ℝ) = c * 0
   simp
 
-theorem recip_smul_inv {a : ℝ} (x : Rex) :
-    div (one : Rex) (smul a⁻¹ x) = smul a (div one x) := by
-  apply RR.ext'
-  simp only [RR.div_val, RR.one_val, smul_val, id_eq, one_div, mul_inv, inv_inv]
+/-- scaling a reciprocal-space bound by `a⁻¹` (`a > 0`) keeps the sign test, scales `1/r` by `a`,
+    and the stand-in `posInf = ⟨0⟩` of `Rex` is a fixed point of the scaling -/
+theorem recipBound_smul_inv {a : ℝ} (ha : 0 < a) (x : Rex) :
+    Harmonic.recipBound (smul a⁻¹ x) = smul a (Harmonic.recipBound x) := by
+  have hg : gt (smul a⁻¹ x) (zero : Rex) = gt x (zero : Rex) := by
+    rw [Bool.eq_iff_iff, RR.gt_iff, RR.gt_iff]
+    simp only [smul_val, RR.zero_val]
+    exact mul_pos_iff_of_pos_left (inv_pos.mpr ha)
+  unfold Harmonic.recipBound
+  rw [hg]
+  by_cases h : gt x (zero : Rex) = true
+  · simp only [h, if_true]
+    apply RR.ext'
+    simp only [RR.div_val, RR.one_val, smul_val, id_eq, one_div, mul_inv, inv_inv]
+  · simp only [h, Bool.false_eq_true, if_false]
+    apply RR.ext'
+    show (0 : ℝ) = a * 0
+    simp
 
 /-- harmonic interval when the reciprocal-space state is scaled by `a⁻¹` -/
 theorem Harmonic.ciMean_asmul_inv (crit : Crit Rex) (conf : Confidence Rex) (A : Arith Rex)
@@ -108,7 +122,7 @@ theorem Harmonic.ciMean_asmul_inv (crit : Crit Rex) (conf : Confidence Rex) (A :
   | panic t => rfl
   | ok I =>
     simp only [Outcome.map_ok, Outcome.bind_ok]
-    rw [highX_map_smul, lowX_map_smul, recip_smul_inv, recip_smul_inv]
+    rw [highX_map_smul, lowX_map_smul, recipBound_smul_inv ha, recipBound_smul_inv ha]
     exact intervalOfKind_scale ha conf _ _
 
 /-- harmonic interval of `a·x` (`a > 0`): every bound multiplied by `a` -/
